@@ -606,4 +606,77 @@ def corrTableG (m m2 : MRS) : List (Var × Var) :=
 
 def corrMapG (m m2 : MRS) (v : Var) : Var := (dlookup v (corrTableG m m2)).getD v
 
+/-! ## Source-only forms of the hypotheses that mention the DMRS, and of "strip removes only what
+the claim names" (all decidable on `m` and `scope.representatives(m)`, evaluated by the driver) -/
+
+/-- the scope the top selects has a representative (the negation is the IndexError of F08). -/
+def TopRep (m : MRS) (reps : Reps) : Bool :=
+  match m.top with
+  | some t =>
+    (match dlookup ((m.hcmap t).getD t) reps with
+      | some [] => false
+      | _ => true)
+  | none => true
+
+/-- label-internal non-scopal arguments: `e` (position `i`) takes the intrinsic variable of a
+non-quantifier with the same label. -/
+def srcArgEdges (m : MRS) : List (Int × Int) :=
+  m.rels.zipIdx.flatMap (fun ei => (ei.1.outArgs none).filterMap (fun a =>
+    match ivToNid m a.2 with
+    | some stop =>
+      (match relAt m stop with
+        | some t => if ei.1.label = t.label then some (nidAt ei.2, stop) else none
+        | none => none)
+    | none => none))
+
+/-- every further representative of a scope is tied to the first one (`MOD/EQ`). -/
+def srcModEdges (m : MRS) (reps : Reps) : List (Int × Int) :=
+  reps.flatMap (fun s =>
+    match s.2 with
+    | r :: s' :: rest => (s' :: rest).map (fun p => (nidAt (posOf m p), nidAt (posOf m r)))
+    | _ => [])
+
+/-- `ScopesHeld` without the DMRS: the members of every scope of `m` are connected through
+label-internal non-scopal arguments and the ties between the scope's representatives. -/
+def ScopesHeldSrc (m : MRS) (reps : Reps) : Bool :=
+  m.rels.zipIdx.all (fun ei => m.rels.zipIdx.all (fun ej =>
+    ei.1.label != ej.1.label ||
+      decide (nidAt ej.2 ∈ bfs (symm (srcArgEdges m ++ srcModEdges m reps)) (nidAt ei.2))))
+
+/-- the predication a RSTR argument leads to: the owner of the intrinsic variable, else the first
+representative of the scope the argument selects. -/
+def rstrTarget (m : MRS) (reps : Reps) (v : Var) : Option EP :=
+  match ivToNid m v with
+  | some n => relAt m n
+  | none =>
+    match dlookup (scopalTarget m v).1 reps with
+    | some (r :: _) => some r.2
+    | _ => none
+
+/-- O1 without the DMRS: the first representative of every quantifier's restriction is a
+non-quantifier whose intrinsic variable is the quantifier's ARG0. -/
+def QuantHeadSrc (m : MRS) (reps : Reps) : Bool :=
+  m.rels.all (fun e => (e.outArgs none).all (fun a => a.1 != RESTRICTION_ROLE ||
+    match rstrTarget m reps a.2 with
+    | some t => !t.isQuantifier && e.iv.isSome && t.iv == e.iv
+    | none => true))
+
+/-- the top selects a scope (through its handle constraint). -/
+def TopSelects (m : MRS) : Bool :=
+  match m.top with
+  | some t => selectsScope m t
+  | none => true
+
+/-- the index is the intrinsic variable of a non-quantifier predication. -/
+def IndexIV (m : MRS) : Bool :=
+  match m.index with
+  | some v => (ivToNid m v).isSome
+  | none => true
+
+/-- every handle constraint is used: its low end is a label and its high end is the top or an
+argument value. -/
+def HconsUsed (m : MRS) : Bool :=
+  m.hcons.all (fun hc => decide (hc.lo ∈ m.labels) &&
+    (m.top == some hc.hi || m.rels.any (fun e => e.args.any (fun a => a.2 == hc.hi))))
+
 end Verif.C04
